@@ -508,6 +508,8 @@ class Interp:
             if isinstance(n.op, ast.Invert):
                 return ~v
         except TypeError as e:
+            if _has_sym([v]):
+                raise Unsupported(f"unary operator on {type(v).__name__}: {e}")
             raise _wrap_native(e, n)
         raise Unsupported("unary op")
 
@@ -545,6 +547,8 @@ class Interp:
         except ZeroDivisionError:
             raise ModelRaise("ZeroDivisionError", "division by zero")
         except (TypeError, ValueError) as e:
+            if _has_sym([a, b]):
+                raise Unsupported(f"operator {type(op).__name__} on {type(a).__name__}, {type(b).__name__}: {e}")
             raise _wrap_native(e, op)
 
     def e_BinOp(self, n, env):
@@ -589,6 +593,8 @@ class Interp:
                 r = self.contains(b, a)
                 return sym.s_not(r)
         except TypeError as e:
+            if _has_sym([a, b]):
+                raise Unsupported(f"comparison on {type(a).__name__}, {type(b).__name__}: {e}")
             raise _wrap_native(e, op)
         raise Unsupported("comparison")
 
